@@ -10,7 +10,9 @@ use crate::verif_kani_support::*;
 #[kani::proof]
 #[kani::unwind(34)]
 #[kani::stub(alloc::fmt::format, stub_format)]
+#[kani::stub(crate::core::global::get_chain_type, stub_get_chain_type)]
 fn c03_has_more_work_strict() {
+	init_globals();
 	let a: u64 = kani::any();
 	let b: u64 = kani::any();
 	kani::assume(a >= 1 && b >= 1);
@@ -26,6 +28,7 @@ fn c03_has_more_work_strict() {
 	// the derived ordering on Difficulty agrees with the numeric one
 	assert!((header.total_difficulty() > tip.total_difficulty) == (a > b));
 	assert!((header.total_difficulty() <= tip.total_difficulty) == (a <= b));
+	core::mem::forget(header); // BlindingFactor zeroizes on drop with inline asm, which Kani cannot model
 }
 
 /// Tip::from_header copies height, prev hash and cumulative difficulty unchanged.
@@ -33,7 +36,10 @@ fn c03_has_more_work_strict() {
 #[kani::unwind(34)]
 #[kani::stub(alloc::fmt::format, stub_format)]
 #[kani::stub(crate::core::core::hash::HashWriter::finalize, stub_finalize)]
+#[kani::stub(blake2_rfc::blake2b::Blake2b::update, stub_blake_update)]
+#[kani::stub(crate::core::global::get_chain_type, stub_get_chain_type)]
 fn c03_tip_from_header() {
+	init_globals();
 	let h: u64 = kani::any();
 	let a: u64 = kani::any();
 	kani::assume(a >= 1);
@@ -43,4 +49,5 @@ fn c03_tip_from_header() {
 	assert!(tip.total_difficulty.to_num() == a);
 	assert!(tip.prev_block_h == header.prev_hash);
 	assert!(!has_more_work(&header, &tip), "a header never has more work than its own tip");
+	core::mem::forget(header);
 }
